@@ -107,6 +107,26 @@ macro "addpre_tac" f:ident : tactic =>
     postingOpen E (addPre p st) = ((postingOpen E st).1, addPre p (postingOpen E st).2) := by
   fun_cases postingOpen E st <;> addpre_tac postingOpen
 
+@[grind =] theorem lineComment_addPre (p) (st : PState σ) :
+    lineComment E (addPre p st) = ((lineComment E st).1, addPre p (lineComment E st).2) := by
+  fun_cases lineComment E st <;> addpre_tac lineComment
+
+@[grind =] theorem postingClosing_addPre (p) (cl : Option TokType) (st : PState σ) :
+    postingClosing E cl (addPre p st) = addPre p (postingClosing E cl st) := by
+  unfold postingClosing; grind
+
+@[grind =] theorem postingAmount_addPre (p) (st : PState σ) :
+    postingAmount E (addPre p st) = ((postingAmount E st).1, addPre p (postingAmount E st).2) := by
+  fun_cases postingAmount E st <;> addpre_tac postingAmount
+
+@[grind =] theorem postingCost_addPre (p) (st : PState σ) :
+    postingCost E (addPre p st) = ((postingCost E st).1, addPre p (postingCost E st).2) := by
+  fun_cases postingCost E st <;> addpre_tac postingCost
+
+@[grind =] theorem postingAssertion_addPre (p) (st : PState σ) :
+    postingAssertion E (addPre p st) = ((postingAssertion E st).1, addPre p (postingAssertion E st).2) := by
+  fun_cases postingAssertion E st <;> addpre_tac postingAssertion
+
 @[grind =] theorem postingTail_addPre (p) (cl : Option TokType) (st : PState σ) :
     postingTail E cl (addPre p st) = ((postingTail E cl st).1, addPre p (postingTail E cl st).2) := by
   fun_cases postingTail E cl st <;> addpre_tac postingTail
@@ -168,10 +188,6 @@ macro "addpre_tac" f:ident : tactic =>
 @[grind =] theorem accountNameRest_addPre (p) (nm : Bytes) (st : PState σ) :
     accountNameRest E nm (addPre p st) = ((accountNameRest E nm st).1, addPre p (accountNameRest E nm st).2) := by
   fun_cases accountNameRest E nm st <;> addpre_tac accountNameRest
-
-@[grind =] theorem lineComment_addPre (p) (st : PState σ) :
-    lineComment E (addPre p st) = ((lineComment E st).1, addPre p (lineComment E st).2) := by
-  fun_cases lineComment E st <;> addpre_tac lineComment
 
 @[grind =] theorem parseAccountDirective_addPre (p) (sp : Pos) (st : PState σ) :
     parseAccountDirective E sp (addPre p st) = ((parseAccountDirective E sp st).1, addPre p (parseAccountDirective E sp st).2) := by
